@@ -151,6 +151,14 @@ for i = 0; i < n; i = i + 1 {
 }
 probe(4, 0)
 `}}},
+	{name: "effect-in-post-clause", texts: [][2]string{{"main.p", `n = lim()
+i = 0
+for ; i < n; probe(1, i) {
+  i = i + 1
+  probe(2, i)
+}
+probe(3, n)
+`}}},
 	{name: "nested-break-continue", texts: [][2]string{{"main.p", `n = lim()
 for i = 0; i < n; i = i + 1 {
   for j = 0; j < 3; j = j + 1 {
